@@ -519,7 +519,19 @@ func checkBorderContiguity(p *Prog, r *Roles, res *Result, sp *ssa.Package) {
 				}
 			}
 		}
-		if len(startStores) == 0 || len(endStores) == 0 {
+		if len(startStores) == 0 {
+			continue
+		}
+		if len(endStores) == 0 {
+			// the function propagates borders between neighbours but never writes an end border of the slice
+			nEnd := 0
+			for _, s := range p.fields().stores[endF] {
+				if s.Parent() == f {
+					nEnd++
+				}
+			}
+			res.bad("C13-R5", funcName(f)+": realigned end borders are written into the partition slice", p.pos(startStores[0].Pos()),
+				fmt.Sprintf("start borders are copied from the neighbour's end border, but no end border of the slice is ever rewritten (%d store(s) go to a copy of the element): a border inside one key's versions stays where the engine put it", nEnd))
 			continue
 		}
 		sliceKey := func(ia *ssa.IndexAddr) string { return pureKeyCell(ia.X) }
@@ -545,6 +557,10 @@ func checkBorderContiguity(p *Prog, r *Roles, res *Result, sp *ssa.Package) {
 					problems = append(problems, "the propagated end border is read from a different slice than the one whose end borders are adjusted (stale, unadjusted border)")
 				}
 				// the end border that was propagated must not be adjusted afterwards in the same iteration
+				if reaches(ld, es) && !reaches(es, ld) {
+					// the adjustment runs in a later pass over the slice: every propagated start is the unadjusted border
+					problems = append(problems, "end borders are adjusted in a pass that runs after they have been copied into the next partition's start: the next partition starts at the unadjusted border and the records in between are scanned by nobody")
+				}
 				if pureKey(eia.Index) == pureKey(src.Index) && reaches(ld, es) && !crossesBackEdgeOnly(ld, es) {
 					problems = append(problems, "an end border is adjusted after it has been copied into the next partition's start: the next partition starts at the unadjusted border and the records in between are scanned by nobody")
 				}
